@@ -10,6 +10,7 @@ import c10_gen as g
 
 sys.path.insert(0, os.path.join(c.VERIF, "translate"))
 import prec_table  # noqa: E402
+import ident_rules  # noqa: E402
 
 PID = "C10"
 MANIFEST = {
@@ -39,6 +40,17 @@ def regen_prec(h):
     except (OSError, IOError) as e:
         raise c.BrokenTie("translate/prec_table.py: source file missing", str(e))
     c.write_if_changed(os.path.join(c.GEN, "PrecTable.v"), txt)
+    return info
+
+
+def regen_ident():
+    try:
+        txt, info = ident_rules.generate(c.REPO)
+    except ident_rules.TranslateError as e:
+        raise c.BrokenTie("translate/ident_rules.py cannot read the name rules of grammar.pest", str(e))
+    except (OSError, IOError) as e:
+        raise c.BrokenTie("translate/ident_rules.py: grammar.pest missing", str(e))
+    c.write_if_changed(os.path.join(c.GEN, "IdentRules.v"), txt)
     return info
 
 
@@ -81,6 +93,10 @@ def flat_cases(tier, rng):
             cases.append(("pair", "[%s; %s; %s; %s; %s]" % (it_id("a"), it_op(g.BIN_RULE[o1]), it_id("b"),
                                                             it_op(g.BIN_RULE[o2]), it_id("c"))))
     triples = [(o1, o2, o3) for o1 in ops for o2 in ops for o3 in ops]
+    if tier == "quick":
+        # the model runs on a seeded quarter of the triples (all of them in the thorough tier); the
+        # implementation is checked on ALL triples against the specification table in triple_search
+        triples = [tr for tr in triples if rng.below(4) == 0]
     for o1, o2, o3 in triples:
         cases.append(("triple", "[%s; %s; %s; %s; %s; %s; %s]" % (
             it_id("a"), it_op(g.BIN_RULE[o1]), it_id("b"), it_op(g.BIN_RULE[o2]), it_id("c"),
@@ -275,6 +291,57 @@ def small_search(h, res):
     return 2 * len(trees)
 
 
+def spec_climb(operands, ops):
+    """precedence climbing under the specification table (c10_gen.SPEC_LEVEL / RIGHT_ASSOC)"""
+    pos = [0]
+
+    def expr(minlvl):
+        lhs = operands[pos[0]]
+        while pos[0] < len(ops):
+            o = ops[pos[0]]
+            lv = g.SPEC_LEVEL[o]
+            if lv < minlvl:
+                break
+            pos[0] += 1
+            rhs = expr(lv if o in g.RIGHT_ASSOC else lv + 1)
+            lhs = ("bin", o, lhs, rhs)
+        return lhs
+    return expr(0)
+
+
+def triple_search(h, res):
+    """Implementation only, exhaustive: every ordered triple (and pair) of the 26 binary operators as
+    a flat text; the parser must group it as the specification table says."""
+    names = [("id", x) for x in "abcd"]
+    cases = []
+    for o1 in g.BINOPS:
+        for o2 in g.BINOPS:
+            cases.append((o1, o2))
+            for o3 in g.BINOPS:
+                cases.append((o1, o2, o3))
+    lines, exps, texts = [], [], []
+    for ops in cases:
+        text = "a"
+        for k, o in enumerate(ops):
+            text += " %s %s" % (g.BIN_TEXT[o], "bcd"[k])
+        t = spec_climb(names[:len(ops) + 1], list(ops))
+        lines.append(c.hexs(text))
+        texts.append(text)
+        exps.append("E " + g.show(t))
+    outs = c.harness_lines_resilient(h, "parse10", lines)
+    viol = 0
+    for text, exp, o in zip(texts, exps, outs):
+        if o != exp:
+            viol += 1
+            if viol <= 3:
+                res.violation("operators are not grouped as the fixed table says",
+                              {"kind": "impl-law", "law": "parse(flat text) == grouping under the specification table",
+                               "program": text, "observed": o, "expected": exp,
+                               "rerun": "./check C10 --replay <this file>"})
+    res.streams["SEARCH-triples"] = {"texts": len(lines), "exhaustive": True, "violations": viol}
+    return len(lines)
+
+
 def small_layout_search(h, res):
     """Implementation only, exhaustive: every single layout gap of a set of small programs filled with
     every filler the grammar admits there (gives minimal failing inputs for layout changes)."""
@@ -452,8 +519,46 @@ def ident_templates(N):
     return out
 
 
-def ident_stream(h, res, rng, tier, builtin_names):
+def ident_model_stream(h, res, names):
+    """The name rules of the model (C10Ident.v on the generated rules) against the real parser: for
+    every generated name and every reserved word W, which alternative of `term` reads `W + 1`."""
+    words = list(names) + list(g.RESERVED)
+    try:
+        outs = c.coq_eval_batch(["Blots.C10Ident", "Blots.gen.IdentRules", "Blots.C10IdentImpl"], "",
+                                ['show_alt (term_word_impl "%s + 1")' % w for w in words], "c10ident")
+    except c.BrokenTie as e:
+        res.tie_broken(e.what, e.detail)
+        return 0
+    impl = c.harness_lines_resilient(h, "parse10", [c.hexs("%s + 1" % w) for w in words])
+    mism = 0
+    hist = {}
+    for w, m, im in zip(words, outs, impl):
+        one = "(ENum (nb 0x3ff0000000000000))"
+        if m == "I: + 1":
+            if w in names:
+                exp = "E (EBin Add (EId %s) %s)" % (g.cstr(w), one)
+            else:
+                exp = None          # a reserved word read as identifier: never expected
+        elif m == "B: + 1":
+            exp = "E (EBin Add (EBool %s) %s)" % (w, one)
+        elif m == "N: + 1":
+            exp = "E (EBin Add ENull %s)" % one
+        else:
+            exp = "REJECT"          # nothing matches, or a literal matched a proper prefix
+        hist[(m or "?")[:2]] = hist.get((m or "?")[:2], 0) + 1
+        if exp != im:
+            mism += 1
+            if mism == 1:
+                res.tie_broken("correspondence C10/IDENT-model: the name rules of the model and the real parser "
+                               "disagree", "word=%r model=%r impl=%r" % (w, m, im))
+    res.streams["IDENT-model"] = {"words": len(words), "mismatches": mism, "model_alternatives": hist}
+    return len(words)
+
+
+def ident_stream(h, res, rng, tier, builtin_names, model_ok=True):
     names = ident_names(rng, tier, builtin_names)
+    if model_ok:
+        ident_model_stream(h, res, names)
     lines, info = [], []
     for n in names:
         for src, exp in ident_templates(n):
@@ -562,7 +667,18 @@ def known_step(h, res):
             res.known("%s %s" % (e.get("id"), e.get("what", "")))
 
 
+import time as _time
+_T0 = [_time.time()]
+
+
+def lap(res, name):
+    now = _time.time()
+    res.streams.setdefault("timing_s", {})[name] = round(now - _T0[0], 1)
+    _T0[0] = now
+
+
 def main(argv):
+    _T0[0] = _time.time()
     tier, seed, replay = c.tier_and_seed(argv)
     res = c.Result(PID, tier, seed)
     rng = c.Rng(seed)
@@ -578,6 +694,7 @@ def main(argv):
     try:
         info = regen_prec(h)
         res.streams["translator"] = info
+        res.streams["translator-ident"] = regen_ident()
     except c.BrokenTie as e:
         # the table / glue can no longer be read: no model run; go on to the searches on the
         # implementation alone to look for a concrete failing input
@@ -590,6 +707,7 @@ def main(argv):
     if model_ok:
         model_ok = c.proof_step(res, PID) or True
 
+    lap(res, "build+regen+proof")
     bad = spelling_arms_shared()
     if bad:
         res.tie_broken("expressions.rs no longer treats the word and symbol spellings in shared match arms",
@@ -607,8 +725,10 @@ def main(argv):
         if r:
             evaluations += len(fc)
             validated += len(fc) - res.streams["PARSE-flat"]["mismatches"]
+        lap(res, "PARSE-flat")
         # ---- TREE: random deep trees, rendered by the model, round trip + model vs implementation
         tg, meta, ok = tree_stream(h, res, rng, ntree, 5, builtin_names)
+        lap(res, "PARSE-tree")
         evaluations += len(meta)
         validated += ok
     else:
@@ -620,11 +740,13 @@ def main(argv):
             meta.append((t, par, wn))
     # ---- searches on the implementation alone
     evaluations += small_search(h, res)
+    evaluations += triple_search(h, res)
     evaluations += small_layout_search(h, res)
     evaluations += search_stream(h, res, rng, meta, 2 if tier == "quick" else 4)
-    evaluations += ident_stream(h, res, rng, tier, builtin_names)
+    evaluations += ident_stream(h, res, rng, tier, builtin_names, model_ok)
     evaluations += spelling_stream(h, res, rng)
 
+    lap(res, "searches")
     known_step(h, res)
     res.coverage["evaluations"] = evaluations
     res.coverage["distinct_nontrivial"] = (len({e for _, e in fc}) + len({g.show(t) for t, _, _ in meta
